@@ -199,11 +199,28 @@ def main(modname, argv):
         if k is not None:
             known_lines.append('KNOWN-FINDING: property=%s %s [%s; %d occurrence(s); replay=%s]' % (prop, k['what'], k['id'], len(occ), path))
         else:
+            # the replay file must reproduce the violation in a fresh interpreter; if the minimised one does not, fall
+            # back to the unminimised descriptor (and say so)
+            confirmed = None
+            if not a.no_shrink and len(new_lines) < 4:
+                try:
+                    rc, out = fresh_replay(prop, path)
+                    confirmed = (rc == 1 and 'VIOLATION property=%s' % prop in out)
+                    if not confirmed and desc is not v['desc']:
+                        path = core.write_replay(prop, seed, i, v, '-' + '-'.join(str(c) for c in cls[1:]).replace('@', '_at_').replace('/', '_').replace(':', '_') + '-unminimised')
+                        rc, out = fresh_replay(prop, path)
+                        confirmed = (rc == 1 and 'VIOLATION property=%s' % prop in out)
+                        v2 = v
+                except Exception as e:
+                    harness.append('fresh replay failed: %r' % (e,))
+            v2 = dict(v2)
+            v2['_confirmed'] = confirmed
             new_lines.append((cls, len(occ), nrep, path, v2))
     for ln in known_lines:
         print(ln)
     for cls, nocc, nrep, path, v2 in new_lines:
-        print('violation class=%s occurrences=%d shrink_replays=%d msg=%s' % (list(cls), nocc, nrep, v2['msg']))
+        print('violation class=%s occurrences=%d shrink_replays=%d fresh_replay=%s msg=%s' % (
+            list(cls), nocc, nrep, {True: 'reproduced', False: 'NOT-reproduced', None: 'not-run'}[v2.get('_confirmed')], v2['msg']))
         print('VIOLATION property=%s replay=%s' % (prop, path))
     wall = time.time() - t0
     # ---- evidence
